@@ -774,6 +774,23 @@ func (m *Machine) exec(th *Thread, f *Frame, instr ssa.Instruction) {
 		m.objSeq++
 		f.env[in] = MapV{M: &MapObj{ID: m.objSeq}}
 	case *ssa.MakeSlice:
+		if lt, ok := m.get(f, in.Len).(*Term); ok && !lt.IsConst() && isByte(in.Type().Underlying().(*types.Slice).Elem()) && m.Domain != DomArray && in.Len == in.Cap {
+			// make([]byte, n) with a symbolic n: Go panics for a negative or absurd n; a large n is an
+			// allocation of that many bytes. Otherwise: n bytes (zero in Go; unconstrained here, which is
+			// flagged, since such buffers are made to be overwritten).
+			n := BVResize(lt, 64, true)
+			if m.branch("makeslice.negative", BVCmp("bvslt", n, BVC(64, 0))) {
+				panic(m.goPanic("makeslice: len out of range (negative length)"))
+			}
+			if m.branch("makeslice.huge", BVCmp("bvugt", n, BVC(64, 1<<30))) {
+				panic(m.goPanic("makeslice: allocation of more than 1 GiB whose size the input controls"))
+			}
+			t := m.fresh("make.bytes", m.bytesSort())
+			m.assume(Eq(m.strLen(t), n))
+			m.weak = appendUniq(m.weak, []string{"contents of make([]byte, n) with symbolic n (zero in Go, unconstrained here)"}, 20)
+			f.env[in] = m.freshBytes(t)
+			break
+		}
 		ln := m.concInt("makeslice.len", m.get(f, in.Len))
 		cp := m.concInt("makeslice.cap", m.get(f, in.Cap))
 		if ln < 0 || cp < ln {
